@@ -45,9 +45,8 @@ class ExactController(NewtonController):
 
             if next_func_val <= self.params.newton_tol:
                 logger.debug("Newton method converged in %d iterations", i + 1)
-                return StepControlResult(
-                    next_iterate, 0.5 * lamb, active_set, rcond, True
-                )
+                lamb_n = max(0.5 * lamb, self.params.lamb_min)
+                return StepControlResult(next_iterate, lamb_n, active_set, rcond, True)
 
             rate_est = next_func_val / curr_func_val
 
